@@ -547,6 +547,7 @@ func ruleC03(prog *Program, rep *Report) {
 	rulePreambleAgree(prog, rep)
 	ruleArmTwinsAll(prog, rep, true)
 	ruleBOM(prog, rep)           // the []byte and the reader entry must skip the same preamble
+	ruleEscapeDecode(prog, rep)  // the five copies of the escape decoding must produce the same string
 	ruleBigLimitAgree(prog, rep) // the kind of value a number comes back as must not depend on the chunking
 	ruleSENFollow(prog, rep)
 	ruleReaderLoops(prog, rep)
